@@ -254,7 +254,9 @@ def evaluate(job):
         except subprocess.TimeoutExpired:
             tail = 'timeout'
         suite_ok = '294 passed' in tail and '10 errors' in tail and 'failed' not in tail
-        res = {'id': mid, 'module': modname, 'func': func, 'line': lineno, 'desc': desc, 'suite': tail, 'suite_ok': suite_ok}
+        import difflib
+        dl = [l for l in difflib.unified_diff(BASE[modname].splitlines(), new.splitlines(), lineterm='', n=0) if not l.startswith(('---', '+++', '@@'))]
+        res = {'id': mid, 'module': modname, 'func': func, 'line': lineno, 'desc': desc, 'suite': tail, 'suite_ok': suite_ok, 'diff': dl[:8]}
         if suite_ok or os.environ.get('MUT_ALL'):
             from sa.main import run_property
             fired, incon = {}, []
